@@ -2,7 +2,7 @@
    format_xyz_src, format_atomname_src and export_layout_src are regenerated from
    pdb2sql_base.py on every run (Generated_export.v). *)
 From Verif Require Import PyLib ModelTypes Generated_export Model_export Spec_parse Spec_export
-  Generated_parse Model_parse Proofs_digits Proofs_export Proofs_export2 Proofs_reparse Proofs_reread Proofs_roundtrip Proofs_b64 Proofs_roundtrip2.
+  Generated_parse Model_parse Proofs_digits Proofs_export Proofs_export2 Proofs_reparse Proofs_reread Proofs_roundtrip Proofs_b64 Proofs_roundtrip2 Proofs_reexport Proofs_reexport2 Proofs_coordok Proofs_lineok.
 Open Scope Q_scope.
 
 (* a coordinate raises exactly outside (-1e7+0.5, 1e8-0.5); inside, it is the fixed-point
@@ -59,6 +59,20 @@ Theorem C02_text_field_roundtrip : forall w s, clean s = true -> text_ok (VText 
 Proof. exact text_field_roundtrip. Qed.
 Print Assumptions C02_int_field_roundtrip.
 
+(* "as many decimals as fit": every coordinate that is written satisfies the specification predicate coord_ok — 8
+   columns, a plain decimal within half a unit of its last place of the value, 3 decimals throughout (-999.5, 9999.5),
+   otherwise exactly max_fit decimals, one fewer being accepted only within half a unit below a power of ten *)
+Theorem C02_coord_ok : forall q, Qltb coord_lo q && Qltb q coord_hi = true ->
+  coord_ok (VReal q) (fmt_fixed 8 (xyz_decimals q) q) = true.
+Proof. exact coord_ok_exported. Qed.
+Print Assumptions C02_coord_ok.
+(* THE EXPORTED LINE of every fitting row satisfies the whole specification predicate line_ok: 80 columns, record name,
+   and every attribute readable from its own wwPDB columns (integers and text exactly, coordinates by coord_ok,
+   occupancy and B-factor with two decimals within 0.005) *)
+Theorem C02_line_ok : forall d line, fits d = true -> line_of_row d = Ok line -> line_ok d line = true.
+Proof. exact line_ok_exported. Qed.
+Print Assumptions C02_line_ok.
+
 (* reading back: float() of any fixed-point field the exporter writes is the printed decimal — the value
    rounded at the printed precision — rounded once to binary64 ... *)
 Theorem C02_float_of_formatted : forall w p q, parse_float (fmt_fixed w p q) = NumOk (b64 (printed_value p q)).
@@ -104,6 +118,21 @@ Theorem C02_roundtrip : forall d line nmodel, fits d = true -> rereadable d -> l
 Proof. exact roundtrip_approx. Qed.
 Print Assumptions C02_roundtrip.
 
+(* WRITING THE RE-READ TABLE AGAIN gives the identical line, unless a coordinate moved onto a format-switch threshold
+   (its decimals change) or is a negative zero (its sign is lost) — `stable` says exactly that neither happened, and
+   the Examples in Proofs_reexport2 show a stable row, a threshold value and a negative zero *)
+Theorem C02_reexport_identical : forall d m, fits d = true -> stable d ->
+  line_of_row (reread_row d m) = line_of_row d.
+Proof. exact reexport_identical. Qed.
+Print Assumptions C02_reexport_identical.
+
+(* a record in canonical form (the exporter's own text for a fitting, strip-stable, stable row) is reproduced
+   unchanged by reading it and writing it again *)
+Theorem C02_canonical_reproduced : forall d line m, fits d = true -> rereadable d -> stable d -> line_of_row d = Ok line ->
+  exists d', parse_record m line = Ok d' /\ line_of_row d' = Ok line.
+Proof. exact canonical_reproduced. Qed.
+Print Assumptions C02_canonical_reproduced.
+
 (* the round trip is FALSE of the faithful model for a row whose chain identifier is the empty string (inside the
    property's quantifier: "0-1 character chain"): the row fits, is exported with a blank column 22, and the parser
    rejects that line (blank chain with blank segID raises, as C01 requires): known finding F24 *)
@@ -112,11 +141,9 @@ Theorem C02_blank_chain_refuted : exists d line,
 Proof. exact blank_chain_not_rereadable. Qed.
 Print Assumptions C02_blank_chain_refuted.
 
-(* PARTIAL: the full statement also asks (a) "as many decimals as fit" for |x| >= 9999.5 in the form coord_ok
-   (max_fit / near_power_of_ten: the interval table xyz_decimals above is its closed form; proved here only in the
-   direction the round trip needs, Proofs_roundtrip2.coord_tol_ge) and (c) idempotence of a second export; both are
-   decided on every run by the executable spec (line_ok) applied to the implementation's output and by
-   implementation = model on the same rows. *)
+(* What is NOT a theorem here: exportpdb's file handling (newline termination, append) and the bundled files (whose records are
+   canonical only in columns 1-66 and 77-78) are decided by the harness on the implementation's output; sql2pdb = map line_of_row over
+   the selected rows is the hand-written skeleton tied by correspondence. *)
 
 (* non-vacuity and the concrete renderings quoted in the property *)
 Example C02_examples :
